@@ -15,6 +15,7 @@ sequential unmarshaling and unmarshaling the merged tree insert in the same orde
 -/
 import JsonV.Lemmas.MergeClauses
 import JsonV.Lemmas.MergeDup
+import JsonV.Lemmas.MergeIdem
 
 namespace JsonV.Props.C14
 open JsonV JsonV.Spec JsonV.Model JsonV.Lemmas.Merge
@@ -77,6 +78,29 @@ end Ex
 example : Ex.T.wf = true ∧ Ex.j1.dupFree = true ∧ Ex.j2.dupFree = true ∧
     unm {} Ex.T Ex.j1 Ex.T.zero = .ok Ex.v1 ∧ unm {} Ex.T Ex.j2 Ex.v1 = .ok Ex.v2 := by
   refine ⟨by decide, by decide, by decide, by rfl, by rfl⟩
+
+/-- `{}` is a two-sided unit of `merge` on objects: `{}` unmarshaled into a value that came from an object leaves the
+members as they were, and an object merged into `{}` is that object. -/
+theorem merge_empty_object (ms : List (Bytes × JTree)) :
+    JTree.merge (.obj ms) (.obj []) = .obj ms ∧ JTree.merge (.obj []) (.obj ms) = .obj ms :=
+  JsonV.Lemmas.Merge.merge_empty_object ms
+
+/-- `merge` is idempotent on every tree without repeated names (any depth, any width). -/
+theorem merge_idem (a : JTree) (ha : a.dupFree = true) : JTree.merge a a = a := merge_self a ha
+
+/-- **A repeated call is a no-op.**  Unmarshaling the same text a second time into the value the first call produced
+(from a zero value) gives that value again — for every well-formed type, every option record and every tree without
+repeated names.  Corollary of the merge law and `merge_idem`. -/
+theorem unm_twice (o : UOpts) (T : GoType) (hwf : T.wf = true) (j : JTree) (v1 v2 : GoVal) (hd : j.dupFree = true)
+    (h1 : unm o T j T.zero = .ok v1) (h2 : unm o T j v1 = .ok v2) : v2 = v1 := by
+  have h := merge_law_dupFree o T hwf j j v1 v2 hd hd h1 h2
+  rw [merge_idem j hd, h1] at h
+  exact (Except.ok.inj h).symm
+
+/-- The hypotheses of `unm_twice` are met by the non-trivial case `Ex.j1` (and the second call there succeeds). -/
+example : Ex.T.wf = true ∧ Ex.j1.dupFree = true ∧ unm {} Ex.T Ex.j1 Ex.T.zero = .ok Ex.v1 ∧
+    unm {} Ex.T Ex.j1 Ex.v1 = .ok Ex.v1 := by
+  refine ⟨by decide, by decide, by rfl, by rfl⟩
 
 /-- `merge` is NOT associative: a non-object in the middle of a chain resets the destination
 (`({x} ⊕ null) ⊕ {y} = {y}` but `{x} ⊕ (null ⊕ {y}) = {x,y}`), which is why `chain_law` is stated —
